@@ -41,6 +41,14 @@ AREA = {"m2": 1.0, "cm2": 1e-4, "km2": 1e6, "m^2": 1.0, "m**2": 1.0}
 FREQ = {"MHz": 1.0, "Hz": 1e-6, "kHz": 1e-3, "GHz": 1e3, "1/s": 1e-6}
 POWER = {"dB": 1.0, "dex": 10.0}
 INCOMPATIBLE = {"length": ["s", "deg", "MHz", "kg"], "angle": ["km", "s", "MHz"], "area": ["m", "s", "deg"], "freq": ["m", "deg", "kg"], "power": ["m", "s", "Hz"]}
+# ... and units that differ from a compatible one only by an angle factor, a solid angle, a dimensionless scale or a
+# power (astropy's DEFAULT conversion - the one the statement names - refuses them; body_units verifies that per unit
+# before demanding a rejection, so the list cannot over-reach)
+for _kind, _base in (("length", ["km", "m"]), ("area", ["m2", "km2"]), ("freq", ["MHz", "Hz", "1/s"]), ("power", ["dB"])):
+    for _b in _base:
+        INCOMPATIBLE[_kind] += [f"{_b} rad", f"{_b} deg", f"{_b} / rad", f"{_b} sr", f"rad / s" if _kind == "freq" else f"{_b} arcsec", f"({_b})2" if _kind != "area" else "m", f"{_b} / {_b}" if _kind != "power" else "mag"]
+INCOMPATIBLE["angle"] += ["", "rad2", "sr", "deg / s", "rad m", "1 / rad", "percent", "deg2", "rad / km"]
+INCOMPATIBLE["length"] += ["", "percent"]
 
 UNIT_FIELDS = [
     # (path, kind)
@@ -199,6 +207,88 @@ def body_roundtrip(case):
     return labels
 
 
+def _edit(c, k):
+    """In-place edits a caller makes to a configuration it has just loaded (what the run command does for -n,
+    --monospectrum, --powerspectrum, --monocloud, --output ...)."""
+    from nuspacesim.config import Simulation
+
+    k = k % 6
+    if k == 0:
+        c.simulation.thrown_events = c.simulation.thrown_events + 7
+    elif k == 1:
+        c.simulation.spectrum = Simulation.PowerSpectrum(index=2.5, lower_bound=6.5, upper_bound=11.5) if isinstance(c.simulation.spectrum, Simulation.MonoSpectrum) else Simulation.MonoSpectrum(log_nu_energy=9.25)
+    elif k == 2:
+        c.simulation.cloud_model = Simulation.MonoCloud(altitude=7.125)
+    elif k == 3:
+        c.detector.initial_position.altitude = c.detector.initial_position.altitude + 1.5
+    elif k == 4:
+        c.title = c.title + " (edited)"
+    else:
+        c.simulation.max_cherenkov_angle = c.simulation.max_cherenkov_angle * 0.5
+
+
+def body_file_history(case):
+    """A history of writes, reads and edits over a few paths in ONE process, against a model {path: configuration last
+    written}: every read returns what the file holds now - whatever was read from that path before, whatever the caller
+    did to the objects returned earlier, and however similar the new content is (same length, same second)."""
+    from nuspacesim.config import NssConfig, config_from_toml, create_toml
+
+    tmp = tempfile.mkdtemp(prefix="nssverif_c15h_")
+    labels = set()
+    try:
+        with cut("NssConfig(**generated fields)"):
+            confs = [NssConfig(**c) for c in case["configs"]]
+        model, loaded = {}, {}
+        sizes = {}
+        for i, op in enumerate(case["ops"]):
+            kind, pi, ci = op[0], op[1] % 3, op[2] % len(confs)
+            path = os.path.join(tmp, ["a.toml", "b.toml", os.path.join("sub", "a.toml")][pi])
+            os.makedirs(os.path.dirname(path), exist_ok=True)
+            what = f"step {i} {kind} of history {[o[0] + str(o[1] % 3) for o in case['ops']]}"
+            if kind == "write" or path not in model:
+                src = confs[ci]
+                if kind == "write_twin" and path in model:  # same content except one digit: same length, same second
+                    src = model[path].model_copy(deep=True)
+                    n = src.simulation.thrown_events
+                    src.simulation.thrown_events = n + 1 if n % 10 != 9 else n - 1
+                    labels.add("rewritten_with_one_digit_changed")
+                with cut("create_toml"):
+                    create_toml(path, src)
+                if path in model:
+                    labels.add("path_rewritten")
+                    if sizes.get(path) == os.path.getsize(path):
+                        labels.add("rewritten_same_size")
+                sizes[path] = os.path.getsize(path)
+                model[path] = src.model_copy(deep=True)
+                if kind in ("write", "write_twin"):
+                    continue
+            if kind == "edit" and path in loaded:
+                _edit(loaded[path], op[2])
+                labels.add("loaded_object_edited")
+                continue
+            if kind == "edit_source":
+                _edit(confs[ci], op[2])  # the caller goes on using the object it wrote from: the FILE is unchanged
+                continue
+            rel = kind == "read_rel"
+            cwd = os.getcwd()
+            try:
+                if rel:
+                    os.chdir(os.path.dirname(path))
+                with cut("config_from_toml"):
+                    r = config_from_toml(os.path.basename(path) if rel else path)
+            finally:
+                os.chdir(cwd)
+            if path in loaded:
+                labels.add("read_again")
+                if r is loaded[path]:
+                    labels.add("same_object_returned_twice")  # (not a violation by itself: only what a later read RETURNS is compared)
+            compare_configs(model[path], r, f"{what}: file {os.path.relpath(path, tmp)} read in a process that read / wrote it before")
+            loaded[path] = r
+    finally:
+        shutil.rmtree(tmp, ignore_errors=True)
+    return labels
+
+
 OTHER_ENVS = [
     # a process without a UTF-8 locale (cron job, minimal container, batch node): Python's locale encoding is ASCII
     {"LC_ALL": "C", "LANG": "C", "PYTHONUTF8": "0", "PYTHONCOERCECLOCALE": "0"},
@@ -320,7 +410,21 @@ def body_units(case):
         return labels
     if mode == "incompatible":
         bad_unit = INCOMPATIBLE[kind][case["unit"] % len(INCOMPATIBLE[kind])]
-        for given in (f"{value!r} {bad_unit}", Quantity(value, u.Unit(bad_unit))):
+        try:
+            bad_q = Quantity(value, u.Unit(bad_unit))
+            bad_s = Quantity(f"{value!r} {bad_unit}")
+        except Exception:  # noqa: BLE001 - a spelling astropy itself does not read: nothing to demand
+            return labels | {"unit_not_parsed_by_astropy"}
+        try:
+            bad_q.to(canonical)
+            return labels | {"astropy_converts_after_all"}  # (never on this image; keeps the oracle = astropy's default conversion)
+        except u.UnitConversionError:
+            pass
+        if bad_s.unit != bad_q.unit:
+            return labels | {"unit_string_reads_differently"}
+        if any(t in bad_unit for t in ("rad", "deg", "sr", "arcsec", "percent")) or bad_unit == "":
+            labels.add("differs_by_angle_or_scale_only")
+        for given in (f"{value!r} {bad_unit}".strip(), bad_q):
             try:
                 c = NssConfig(**_nested(path, given))
             except Exception:  # noqa: BLE001 - rejection is what the statement asks for
@@ -535,6 +639,19 @@ SUBCHECKS = [
         tolerances={"degree_fields": "4 ulp", "others": "exact"},
     ),
     SubCheck(
+        "file_history",
+        st.fixed_dictionaries(
+            {
+                "configs": st.lists(config_dict(), min_size=2, max_size=3),
+                "ops": st.lists(st.tuples(st.sampled_from(["write", "read", "read", "edit", "read_rel", "write_twin", "edit_source"]), st.integers(0, 2), st.integers(0, 11)), min_size=3, max_size=12),
+            }
+        ),
+        body_file_history,
+        lambda labels: "read_again" in labels and ("loaded_object_edited" in labels or "path_rewritten" in labels),
+        {"quick": 120, "thorough": 6000},
+        doc="model-based history of writes / reads / caller-side edits over three paths in one process: every read returns what the file holds now (earlier reads of the path, edits to objects returned earlier, rewrites of equal length in the same second, relative vs absolute spelling of the path)",
+    ),
+    SubCheck(
         "cli",
         st.fixed_dictionaries(
             {
@@ -562,9 +679,9 @@ SUBCHECKS = [
         st.fixed_dictionaries(
             {
                 "field": st.integers(0, len(UNIT_FIELDS) - 1),
-                "unit": st.integers(0, 20),
+                "unit": st.integers(0, 60),
                 "value": st.one_of(st.floats(-1e6, 1e6), st.sampled_from([0.0, 1.0, -1.0, 525.0, 3.0, 1e-30, 1e30, 180.0, 1800.0, 0.1])),
-                "mode": st.sampled_from(["unit", "unit", "unit", "bare", "incompatible"]),
+                "mode": st.sampled_from(["unit", "unit", "unit", "bare", "incompatible", "incompatible"]),
             }
         ),
         body_units,
